@@ -179,6 +179,14 @@ LIB = [  # every service program under lib/services, with requests that reach it
 class _Srv(egosrv.Server):
     """egosrv.Server probes /services/up, which in child mode spawns a process per probe; probe the native heartbeat instead"""
 
+    def config(self, key, val):             # egosrv allows 30 s; a saturated machine needs more
+        try:
+            p = subprocess.run([self.ego, "config", "set", "%s=%s" % (key, val)], env=self.env, capture_output=True, text=True, timeout=600)
+        except subprocess.TimeoutExpired:
+            raise vf.NoVerdict("ego config set %s timed out" % key)
+        if p.returncode != 0:
+            raise vf.NoVerdict("ego config set %s failed: %s %s" % (key, p.stdout, p.stderr))
+
     def start(self, wait=None):
         wait = wait or (120 + 20 * os.getloadavg()[0] / (os.cpu_count() or 1))
         if not os.path.exists(self.userfile):
@@ -385,14 +393,14 @@ def triple(obs3):
 
 # ------------------------------------------------------------------ the check
 def select_cases(recs, thorough, rng):
-    cases = [c for c in recs if c["radius"] <= 1]
-    far = sorted((c for c in recs if c["radius"] == 2), key=lambda c: (c["fam"], c["dev"]))
+    """thorough: the whole radius-2 ball; quick: radius <= 1, the coupled pairs, a seeded sample of the other pairs"""
     if thorough:
-        cases += far
-    else:
-        for fam, n in (("echo", 6), ("gen", 6)):
-            pool = [c for c in far if c["fam"] == fam]
-            cases += rng.sample(pool, min(n, len(pool)))
+        return sorted(recs, key=lambda c: (c["fam"], c["radius"], c["dev"]))
+    cases = [c for c in recs if c["radius"] <= 1 or c["coupled"]]
+    far = sorted((c for c in recs if c["radius"] == 2 and not c["coupled"]), key=lambda c: (c["fam"], c["dev"]))
+    for fam, n in (("echo", 5), ("gen", 5)):
+        pool = [c for c in far if c["fam"] == fam]
+        cases += rng.sample(pool, min(n, len(pool)))
     return cases
 
 
@@ -424,6 +432,12 @@ def run():
         recs = list(seen.values())
         if len(recs) != rep[-1]["cases"]:
             raise vf.NoVerdict("generator printed %d cases, the model has %d" % (len(recs), rep[-1]["cases"]))
+        replay = os.environ.get("VERIF_REPLAY")
+        only = None
+        if replay:          # re-run one reported case (plus the two base cases, which the self-test needs)
+            rc = json.load(open(replay))["replay"]["case"]
+            only = (rc["fam"], rc["label"])
+            thorough = True
         sel = select_cases(recs, thorough, rng)
         cases = []
         for c in sel:
@@ -435,6 +449,10 @@ def run():
             for acc in ("none", "json") if name in ("compute", "deleted") else ("none",):
                 rq = dict(method="GET", path=path, headers=[("Accept", ACCEPT[acc])] if ACCEPT[acc] else [], body=None, auth=None)
                 cases.append({"fam": "prog", "label": "%s#%s" % (name, acc), "c": {"label": name}, "rq": rq})
+        if only:
+            cases = [c for c in cases if (c["fam"], c["label"]) == only or (c["fam"] in ("echo", "gen") and c["label"] == "base")]
+            if not any((c["fam"], c["label"]) == only for c in cases):
+                raise vf.NoVerdict("replay: no case %s/%s" % only)
         order = list(range(len(cases)))
         rng.shuffle(order)                      # the order of requests is not part of a case
         cases = [cases[i] for i in order]
@@ -480,7 +498,7 @@ def run():
         if counts["inproc"]["invoke"] != 0:
             raise vf.NoVerdict("the in-process server spawned children: %r" % counts)
         for m, tr in (("pipe", "pipe_transport"), ("file", "file_transport")):
-            if counts[m]["invoke"] < n // 2 or counts[m][tr] != counts[m]["invoke"]:
+            if counts[m]["invoke"] < (n + 1) // 2 or counts[m][tr] != counts[m]["invoke"]:
                 raise vf.NoVerdict("the %s server did not run its requests in children over its transport: %r" % (m, counts))
 
         log, detail = [], []
@@ -547,7 +565,7 @@ def run():
         chk.cov["evaluations"] = 2 * n                      # (in-process, child) pairs judged
         chk.cov["distinct_nontrivial"] = len({(r["fam"], r["label"]) for r in log[:n]})
         chk.cov["sessions_used"] = fx.sessions_used
-        chk.cov["exhaustive"] = bool(thorough)
+        chk.cov["exhaustive"] = bool(thorough) and not only
         chk.cov["rule"] = ("cases = ChildService_Gen (radius-2 ball of both families: all of it in the thorough tier, radius 1 plus a seeded "
                            "sample of radius 2 in the quick tier) + every lib/services program + 4 hand-written programs; "
                            "evaluations = (in-process, child) response pairs of real servers judged field by field by ChildService_Trace")
